@@ -2,19 +2,20 @@ SPECIFICATION Spec
 CONSTANTS
   Keys = {"k1", "k2"}
   Vals = {"v1"}
-  SyncMode = "none"
-  MaxOps = 3
-  MaxBatch = 1
-  MaxImm = 2
-  MaxFiles = 3
-  MaxCrash = 1
-  MaxLevel = 2
+  SyncMode = "imm"
+  MaxOps = 2
+  MaxBatch = 2
+  MaxImm = 1
+  MaxFiles = 2
+  MaxCrash = 2
+  MaxLevel = 1
   DKeys = {"k1", "k2"}
   DVals = {"v1"}
-  DSync = "none"
-  DMaxOps = 3
-  DMaxBatch = 1
+  DSync = "imm"
+  DMaxOps = 2
+  DMaxBatch = 2
 INVARIANT Inv
 PROPERTY LastSeqMonotone
+PROPERTY RefinesDurable
 CONSTRAINT StateBound
 CHECK_DEADLOCK FALSE
